@@ -274,10 +274,10 @@ Proof. unfold k_psd_ok. apply Qle_bool_iff. Qed.
 Local Open Scope string_scope.
 Definition label_row_ok (row : list (string * string)) : bool :=
   match row with
-  | [(k1, m); (k2, t); (k3, g)] =>
+  | (k1, m) :: rest =>
     String.eqb k1 "mat" && (String.eqb m "G" || String.eqb m "mat") &&
-    String.eqb k2 "taxa" && (String.eqb t "gmat.taxa" || String.eqb t "copy gmat.taxa") &&
-    String.eqb k3 "taxa_grp" && (String.eqb g "gmat.taxa_grp" || String.eqb g "copy gmat.taxa_grp")
+    list_eqb String.eqb (map fst rest) ["taxa"; "taxa_grp"; "taxa_grp_name"; "taxa_grp_stix"; "taxa_grp_spix"; "taxa_grp_len"] &&
+    forallb (fun kv => String.eqb (snd kv) ("gmat." ++ fst kv) || String.eqb (snd kv) ("copy gmat." ++ fst kv)) rest
   | _ => false
   end.
 Lemma k_labels_ok : map fst k_labels = ["mol"; "vr"; "yang"; "gw"] /\ forallb (fun e => label_row_ok (snd e)) k_labels = true.
@@ -387,17 +387,36 @@ Lemma kernel_wiring :
 Proof. split; [exact k_labels_ok|]. split; [exact k_factories_ok | exact k_reductions_model]. Qed.
 
 (** * label arrays: copied or shared?  (read off the generated wiring table)
-    The molecular and the weighted estimator hand *copies* of the source's label arrays to the new object; VanRaden and Yang hand
-    the arrays themselves, so matrix and source share them (known finding C13-vr-yang-share-label-arrays). *)
+    Every from_gmat hands *copies* of the source's six label arrays (taxa, taxa_grp and the four group-metadata arrays) to the new
+    object: `gmat.X.copy() if gmat.X is not None else None`, reported by the translator as `copy gmat.X`.  Formerly VanRaden and Yang
+    handed the arrays themselves, so matrix and source shared them (finding C13-vr-yang-share-label-arrays, repaired in the
+    library); [old_k_labels] is the table the translator produced from that former source, kept as a regression witness. *)
 Local Open Scope string_scope.
 Definition row_copies (row : list (string * string)) : bool :=
   match row with
-  | [_; (_, t); (_, g)] => String.eqb t "copy gmat.taxa" && String.eqb g "copy gmat.taxa_grp"
+  | _ :: rest =>
+    list_eqb String.eqb (map fst rest) ["taxa"; "taxa_grp"; "taxa_grp_name"; "taxa_grp_stix"; "taxa_grp_spix"; "taxa_grp_len"] &&
+    forallb (fun kv => String.eqb (snd kv) ("copy gmat." ++ fst kv)) rest
   | _ => false
   end.
-Lemma labels_copied_refuted : map fst (filter (fun e => negb (row_copies (snd e))) k_labels) = ["vr"; "yang"].
-Proof. reflexivity. Qed.
-Lemma labels_copied_partial :
-  forallb (fun e => if String.eqb (fst e) "mol" || String.eqb (fst e) "gw" then row_copies (snd e) else true) k_labels = true.
+Lemma labels_copied : map fst k_labels = ["mol"; "vr"; "yang"; "gw"] /\ forallb (fun e => row_copies (snd e)) k_labels = true.
+Proof. split; reflexivity. Qed.
+
+(** the FORMER source (before the repair), as the same translator reads it: not used by anything else *)
+Definition old_shared_row (m : string) : list (string * string) :=
+  [("mat", m); ("taxa", "gmat.taxa"); ("taxa_grp", "gmat.taxa_grp"); ("taxa_grp_name", "gmat.taxa_grp_name");
+   ("taxa_grp_stix", "gmat.taxa_grp_stix"); ("taxa_grp_spix", "gmat.taxa_grp_spix"); ("taxa_grp_len", "gmat.taxa_grp_len")].
+Definition old_copied_row (m : string) : list (string * string) :=
+  [("mat", m); ("taxa", "copy gmat.taxa"); ("taxa_grp", "copy gmat.taxa_grp"); ("taxa_grp_name", "copy gmat.taxa_grp_name");
+   ("taxa_grp_stix", "copy gmat.taxa_grp_stix"); ("taxa_grp_spix", "copy gmat.taxa_grp_spix"); ("taxa_grp_len", "copy gmat.taxa_grp_len")].
+Definition old_k_labels : list (string * list (string * string)) :=
+  [("mol", old_copied_row "mat"); ("vr", old_shared_row "G"); ("yang", old_shared_row "G"); ("gw", old_copied_row "G")].
+Lemma old_labels_copied_refuted :
+  forallb (fun e => label_row_ok (snd e)) old_k_labels = true /\ map fst (filter (fun e => negb (row_copies (snd e))) old_k_labels) = ["vr"; "yang"].
+Proof. split; reflexivity. Qed.
+(** the repaired table differs from the former one exactly in those two rows *)
+Lemma labels_repair_delta :
+  map (fun p => fst (fst p)) (filter (fun p => negb (list_eqb (fun a b => String.eqb (fst a) (fst b) && String.eqb (snd a) (snd b)) (snd (fst p)) (snd (snd p))))
+                  (combine k_labels old_k_labels)) = ["vr"; "yang"].
 Proof. reflexivity. Qed.
 Local Close Scope string_scope.
